@@ -12,12 +12,12 @@ namespace Amgcl.Solver
 
 /-- the small dense work arrays `H` (`multi_array<coef_type,2>(M+1, M)`), `s, cs, sn` (`std::vector(M+1)`) -/
 structure Hess (K : Type) where
-  H  : Nat → Nat → K
-  s  : Nat → K
-  cs : Nat → K
-  sn : Nat → K
+  H  : FArr2 K
+  s  : FArr K
+  cs : FArr K
+  sn : FArr K
 
-def Hess.fresh {K : Type} [Zero K] : Hess K := ⟨fun _ _ => 0, fun _ => 0, fun _ => 0, fun _ => 0⟩
+def Hess.fresh {K : Type} [Zero K] : Hess K := ⟨.const 0, .const 0, .const 0, .const 0⟩
 
 section ops
 variable {K : Type} [Add K] [Mul K] [Sub K] [Neg K] [Zero K] [One K] [Div K] [DecidableEq K] [LT K] [DecidableLT K]
@@ -40,29 +40,29 @@ def applyRot (dx dy cs sn : K) : K × K :=
   (cs * dx + sn * dy, (-sn) * dx + cs * dy)     -- tmp = adjoint(cs)*dx + adjoint(sn)*dy; dy = -sn*dx + cs*dy; dx = tmp;
 
 /-- gmres.hpp:219-222: `for(k = 0; k <= j; ++k) { H(k,j) = inner_product(v_new, *v[k]); axpby(-H(k,j), *v[k], one, v_new); }` -/
-def mgs (ip : Vec K → Vec K → K) (v : Nat → Vec K) (j : Nat) (H : Nat → Nat → K) (vnew : Vec K) :
-    (Nat → Nat → K) × Vec K :=
-  (List.range (j + 1)).foldl (fun (acc : (Nat → Nat → K) × Vec K) k =>
+def mgs (ip : Vec K → Vec K → K) (v : FArr (Vec K)) (j : Nat) (H : FArr2 K) (vnew : Vec K) :
+    FArr2 K × Vec K :=
+  (List.range (j + 1)).foldl (fun (acc : FArr2 K × Vec K) k =>
       let H' := setF2 acc.1 k j (ip acc.2 (v k))
       (H', axpby (-(H' k j)) (v k) 1 acc.2)) (H, vnew)
 
 /-- gmres.hpp:227-228: `for(k = 0; k < j; ++k) apply_plane_rotation(H(k,j), H(k+1,j), cs[k], sn[k]);` -/
-def rotCol (j : Nat) (H : Nat → Nat → K) (cs sn : Nat → K) : Nat → Nat → K :=
+def rotCol (j : Nat) (H : FArr2 K) (cs sn : FArr K) : FArr2 K :=
   (List.range j).foldl (fun H k =>
       let p := applyRot (H k j) (H (k + 1) j) (cs k) (sn k)
       setF2 (setF2 H (k + 1) j p.2) k j p.1) H
 
 /-- gmres.hpp:219-225: Gram–Schmidt against `v[0..j]`, `H(j+1,j) = norm(v_new)`, normalisation of `v_new`;
 returns `H` (column `j`, rows `0..j+1` written) and the normalised `v_new` -/
-def orth (ip : Vec K → Vec K → K) (sqrt : K → K) (v : Nat → Vec K) (j : Nat) (H : Nat → Nat → K) (vnew : Vec K) :
-    (Nat → Nat → K) × Vec K :=
+def orth (ip : Vec K → Vec K → K) (sqrt : K → K) (v : FArr (Vec K)) (j : Nat) (H : FArr2 K) (vnew : Vec K) :
+    FArr2 K × Vec K :=
   let m := mgs ip v j H vnew
   let H2 := setF2 m.1 (j + 1) j (nrmA ip sqrt m.2)                  -- H(j+1, j) = norm(v_new);
   (H2, axpby (inv1 (H2 (j + 1) j)) m.2 0 m.2)                        -- axpby(inverse(H(j+1,j)), v_new, zero, v_new);
 
 /-- gmres.hpp:227-234: the previous rotations applied to column `j`, the new rotation generated and applied to the
 column and to `s`; returns the new `(H, s, cs, sn)` and `inner_res = std::abs(s[j+1])` -/
-def rotate (sqrt : K → K) (j : Nat) (h : Hess K) (H2 : Nat → Nat → K) : Hess K × K :=
+def rotate (sqrt : K → K) (j : Nat) (h : Hess K) (H2 : FArr2 K) : Hess K × K :=
   let H3 := rotCol j H2 h.cs h.sn
   let g := genRot sqrt (H3 j j) (H3 (j + 1) j)                       -- generate_plane_rotation(H(j,j), H(j+1,j), cs[j], sn[j]);
   let cs := setF h.cs j g.1
@@ -75,7 +75,7 @@ def rotate (sqrt : K → K) (j : Nat) (h : Hess K) (H2 : Nat → Nat → K) : He
 
 /-- gmres.hpp:219-234 for inner index `j`: returns the new `(H, s, cs, sn)`, the normalised `v_new`, and
 `inner_res` -/
-def hessStep (ip : Vec K → Vec K → K) (sqrt : K → K) (v : Nat → Vec K) (j : Nat) (h : Hess K) (vnew : Vec K) :
+def hessStep (ip : Vec K → Vec K → K) (sqrt : K → K) (v : FArr (Vec K)) (j : Nat) (h : Hess K) (vnew : Vec K) :
     Hess K × Vec K × K :=
   let o := orth ip sqrt v j h.H vnew
   let r := rotate sqrt j h o.1
@@ -83,17 +83,13 @@ def hessStep (ip : Vec K → Vec K → K) (sqrt : K → K) (v : Nat → Vec K) (
 
 /-- gmres.hpp:244-248:
 `for (i = j; i --> 0; ) { s[i] /= H(i,i); for (k = 0; k < i; ++k) s[k] -= H(k,i) * s[i]; }` -/
-def backSubst (j : Nat) (H : Nat → Nat → K) (s : Nat → K) : Nat → K :=
+def backSubst (j : Nat) (H : FArr2 K) (s : FArr K) : FArr K :=
   (List.range j).reverse.foldl (fun s i =>
       let s1 := setF s i (s i / H i i)
       (List.range i).foldl (fun s k => setF s k (s k - H k i * s i)) s1) s
 
 /-- `std::fill(s.begin(), s.end(), 0); s[0] = norm_r;` -/
-def sInit (normR : K) : Nat → K := setF (fun _ => 0) 0 normR
-
-/-- the coefficient/vector pairs `(c[i], *v[i])`, `i < n`, handed to `backend::lin_comb(n, c, v, …)` -/
-def combList (n : Nat) (c : Nat → K) (v : Nat → Vec K) : List (K × Vec K) :=
-  (List.range n).map (fun i => (c i, v i))
+def sInit (normR : K) : FArr K := setF (.const 0) 0 normR
 
 end ops
 end Amgcl.Solver
